@@ -29,7 +29,7 @@ def run(ctx):
     # of one drawing verb (batches beyond an opcode's repeat limit): what is written must
     # read back as what was passed, number by number (TV_RoundTrip: quantisation / tolerance predicates of Numbers.tla)
     from lib import enccheck
-    lr = enccheck.run_enc_traces(ctx, ["runs", "longruns", "wellformed"], 150 if quick else 6000, ["err"], want=("rt",), sub="runs")
+    lr = enccheck.run_enc_traces(ctx, ["runs", "longruns", "arcshapes", "wellformed"], 150 if quick else 6000, ["err"], want=("rt",), sub="runs")
     for d in lr["diags"]["rt"]:
         ctx.violation("runs:%s:%s" % (d.get("diag"), d.get("id")), "numbers of a long run do not read back", enccheck.trim(d))
     sweep = None
